@@ -232,10 +232,13 @@ impl TypeCollector {
         visitor: &V,
         config: &GenerateConfig,
     ) -> Vec<StructContext> {
-        used_structs
-            .iter()
-            .map(|(name, struct_info)| {
-                StructContext::new(config).from_struct_info(name, struct_info, visitor)
+        // Declare structs in name order so that the output does not depend on hash iteration order
+        let mut names: Vec<&String> = used_structs.keys().collect();
+        names.sort();
+        names
+            .into_iter()
+            .map(|name| {
+                StructContext::new(config).from_struct_info(name, &used_structs[name], visitor)
             })
             .collect()
     }
